@@ -172,9 +172,11 @@ def _for_slist(self, n, lst):
 def _for_producer(self, n, gen):
     st = self.st
     k, spec = _spec(self, n)
+    gen.contract.start(self, gen)
     _establish(self, k, spec, 'entry')
     targets = source.assigned_names([ast.Assign(targets=[n.target], value=ast.Constant(value=None))])
     _cut(self, k, spec, n, targets)
+    gen.contract.havoc_ghost(self, gen)          # the producer is somewhere in its run
     self._loop_heap_ids, self._loop_mem_ids = set(st.heap), set(st.mem)
     mw, mm = len(st.writes), len(st.memwrites)
     step = gen.contract.step(self, gen)          # may raise PyRaise (producer raised)
